@@ -1,5 +1,9 @@
 #![allow(dead_code)]
 mod driver;
+mod errors;
+mod gen;
+mod oracle;
+mod tree;
 mod probe;
 mod props;
 mod report;
@@ -44,6 +48,7 @@ fn main() {
     std::panic::set_hook(Box::new(|_| {}));
     let mut rep = report::Report::new(&prop, &tier, seed);
     match prop.as_str() {
+        "C13" => props::c13::run(&mut rep, &tier, seed),
         "C17" => props::c17::run(&mut rep, &tier, seed),
         _ => {
             eprintln!("unknown property {}", prop);
